@@ -280,8 +280,14 @@ namespace detail
 	{
 		GLM_STATIC_ASSERT(std::numeric_limits<T>::is_integer, "'bitfieldInsert' only accept integer values");
 
-		T const Mask = detail::mask(static_cast<T>(Bits)) << Offset;
-		return (Base & ~Mask) | ((Insert << static_cast<T>(Offset)) & Mask);
+		if(Bits <= 0)
+			return Base;
+
+		// Unsigned arithmetic: no shift of a negative value, no overflow of the signed mask, and '~Mask' keeps the
+		// element type for 8 and 16 bit T; with Bits > 0 the offset is below the width.
+		typedef typename detail::make_unsigned<T>::type U;
+		U const Mask = static_cast<U>(detail::mask(static_cast<U>(Bits)) << Offset);
+		return vec<L, T, Q>((vec<L, U, Q>(Base) & static_cast<U>(~Mask)) | ((vec<L, U, Q>(Insert) << static_cast<U>(Offset)) & Mask));
 	}
 
 #if GLM_COMPILER & GLM_COMPILER_VC
